@@ -683,12 +683,26 @@ static int parse_matrices(vnacal_load_state_t *vlsp, const vnacal_layout_t *vlp,
 	    const int el_rows    = VL_EL_ROWS(vlp);
 	    const int el_columns = VL_EL_COLUMNS(vlp);
 	    const int el_offset  = VL_EL_OFFSET(vlp);
-	    double complex *packed_um[um_terms][m_columns];
-	    double complex *packed_ui[ui_terms][m_columns];
-	    double complex *packed_ux[ux_terms][m_columns];
-	    double complex *packed_us[us_terms][m_columns];
+	    double complex **packed, **packed_um, **packed_ui;
+	    double complex **packed_ux, **packed_us;
 	    double complex **el = &e[el_offset];
+	    int rv = -1;
 
+	    /*
+	     * The packed matrices are sized by the dimensions given in
+	     * the file: keep them off the stack.
+	     */
+	    if ((packed = calloc((size_t)(um_terms + ui_terms + ux_terms +
+				us_terms) * (size_t)m_columns,
+			    sizeof(double complex *))) == NULL) {
+		_vnacal_error(vlsp->vls_vcp, VNAERR_SYSTEM,
+			"calloc: %s", strerror(errno));
+		return -1;
+	    }
+	    packed_um = packed;
+	    packed_ui = packed_um + (size_t)um_terms * m_columns;
+	    packed_ux = packed_ui + (size_t)ui_terms * m_columns;
+	    packed_us = packed_ux + (size_t)ux_terms * m_columns;
 	    for (int m_column = 0; m_column < m_columns; ++m_column) {
 		const int um_offset = VL_UM14_OFFSET(vlp, m_column);
 		const int ui_offset = VL_UI14_OFFSET(vlp, m_column);
@@ -700,40 +714,33 @@ static int parse_matrices(vnacal_load_state_t *vlsp, const vnacal_layout_t *vlp,
 		double complex **us = &e[us_offset];
 
 		for (int term = 0; term < um_terms; ++term) {
-		    packed_um[term][m_column] = um[term];
+		    packed_um[term * m_columns + m_column] = um[term];
 		}
 		for (int term = 0; term < ui_terms; ++term) {
-		    packed_ui[term][m_column] = ui[term];
+		    packed_ui[term * m_columns + m_column] = ui[term];
 		}
 		for (int term = 0; term < ux_terms; ++term) {
-		    packed_ux[term][m_column] = ux[term];
+		    packed_ux[term * m_columns + m_column] = ux[term];
 		}
 		for (int term = 0; term < us_terms; ++term) {
-		    packed_us[term][m_column] = us[term];
+		    packed_us[term * m_columns + m_column] = us[term];
 		}
 	    }
-	    if (parse_matrix(vlsp, &packed_um[0][0], um_terms, m_columns,
-			matrices[UM], false) == -1) {
-		return -1;
+	    if (parse_matrix(vlsp, packed_um, um_terms, m_columns,
+			matrices[UM], false) != -1 &&
+		parse_matrix(vlsp, packed_ui, ui_terms, m_columns,
+			matrices[UI], false) != -1 &&
+		parse_matrix(vlsp, packed_ux, ux_terms, m_columns,
+			matrices[UX], false) != -1 &&
+		parse_matrix(vlsp, packed_us, us_terms, m_columns,
+			matrices[US], false) != -1 &&
+		parse_matrix(vlsp, el, el_rows, el_columns,
+			matrices[EL], true) != -1) {
+		rv = 0;
 	    }
-	    if (parse_matrix(vlsp, &packed_ui[0][0], ui_terms, m_columns,
-			matrices[UI], false) == -1) {
-		return -1;
-	    }
-	    if (parse_matrix(vlsp, &packed_ux[0][0], ux_terms, m_columns,
-			matrices[UX], false) == -1) {
-		return -1;
-	    }
-	    if (parse_matrix(vlsp, &packed_us[0][0], us_terms, m_columns,
-			matrices[US], false) == -1) {
-		return -1;
-	    }
-	    if (parse_matrix(vlsp, el, el_rows, el_columns,
-			matrices[EL], true) == -1) {
-		return -1;
-	    }
+	    free((void *)packed);
+	    return rv;
 	}
-	return 0;
 
     case VNACAL_E12:
 	{
@@ -742,10 +749,23 @@ static int parse_matrices(vnacal_load_state_t *vlsp, const vnacal_layout_t *vlp,
 	    const int el_terms  = VL_EL12_TERMS(vlp);
 	    const int er_terms  = VL_ER12_TERMS(vlp);
 	    const int em_terms  = VL_EM12_TERMS(vlp);
-	    double complex *packed_el[el_terms][m_columns];
-	    double complex *packed_er[er_terms][m_columns];
-	    double complex *packed_em[em_terms][m_columns];
+	    double complex **packed, **packed_el, **packed_er, **packed_em;
+	    int rv = -1;
 
+	    /*
+	     * The packed matrices are sized by the dimensions given in
+	     * the file: keep them off the stack.
+	     */
+	    if ((packed = calloc((size_t)(el_terms + er_terms + em_terms) *
+			    (size_t)m_columns,
+			    sizeof(double complex *))) == NULL) {
+		_vnacal_error(vlsp->vls_vcp, VNAERR_SYSTEM,
+			"calloc: %s", strerror(errno));
+		return -1;
+	    }
+	    packed_el = packed;
+	    packed_er = packed_el + (size_t)el_terms * m_columns;
+	    packed_em = packed_er + (size_t)er_terms * m_columns;
 	    for (int m_column = 0; m_column < m_columns; ++m_column) {
 		const int el_offset = VL_EL12_OFFSET(vlp, m_column);
 		const int er_offset = VL_ER12_OFFSET(vlp, m_column);
@@ -755,39 +775,35 @@ static int parse_matrices(vnacal_load_state_t *vlsp, const vnacal_layout_t *vlp,
 		double complex **em = &e[em_offset];
 
 		for (int term = 0; term < el_terms; ++term) {
-		    packed_el[term][m_column] = el[term];
+		    packed_el[term * m_columns + m_column] = el[term];
 		}
 		for (int term = 0; term < er_terms; ++term) {
-		    packed_er[term][m_column] = er[term];
+		    packed_er[term * m_columns + m_column] = er[term];
 		}
 		for (int term = 0; term < em_terms; ++term) {
-		    packed_em[term][m_column] = em[term];
+		    packed_em[term * m_columns + m_column] = em[term];
 		}
 	    }
 	    if (vlsp->vls_major_version == 0) {	/* pre-release v2.0 */
 		double complex **e_matrices[3] = {
-		    &packed_el[0][0], &packed_er[0][0], &packed_em[0][0]
+		    packed_el, packed_er, packed_em
 		};
 		assert(el_terms == m_rows);
 		assert(er_terms == m_rows);
 		assert(em_terms == m_rows);
-		return parse_old_e_matrix(vlsp, e_matrices,
+		rv = parse_old_e_matrix(vlsp, e_matrices,
 			m_rows, m_columns, matrices[E]);
+	    } else if (parse_matrix(vlsp, packed_el, el_terms, m_columns,
+			matrices[EL], false) != -1 &&
+		    parse_matrix(vlsp, packed_er, er_terms, m_columns,
+			matrices[ER], false) != -1 &&
+		    parse_matrix(vlsp, packed_em, em_terms, m_columns,
+			matrices[EM], false) != -1) {
+		rv = 0;
 	    }
-	    if (parse_matrix(vlsp, &packed_el[0][0], el_terms, m_columns,
-			matrices[EL], false) == -1) {
-		return -1;
-	    }
-	    if (parse_matrix(vlsp, &packed_er[0][0], er_terms, m_columns,
-			matrices[ER], false) == -1) {
-		return -1;
-	    }
-	    if (parse_matrix(vlsp, &packed_em[0][0], em_terms, m_columns,
-			matrices[EM], false) == -1) {
-		return -1;
-	    }
+	    free((void *)packed);
+	    return rv;
 	}
-	return 0;
 
     default:
 	abort();
